@@ -108,7 +108,9 @@ func (m *Mem) Writes() []Op {
 }
 
 // NewMemFile creates a file that already exists on the storage (Open reports exists=true).
-func NewMemFile(m *Mem, name string, data []byte) *MemFile { return &MemFile{m: m, Name: name, Data: data} }
+func NewMemFile(m *Mem, name string, data []byte) *MemFile {
+	return &MemFile{m: m, Name: name, Data: data}
+}
 
 type MemFile struct {
 	m           *Mem
@@ -188,6 +190,13 @@ func (p *Provider) GetStorage(id string) (storage.Storage, error) {
 		p.ByID[id] = m
 	}
 	return m, nil
+}
+
+// Forget drops the storage of id (the torrent was removed; a later torrent with the same id starts from nothing).
+func (p *Provider) Forget(id string) {
+	p.mu.Lock()
+	defer p.mu.Unlock()
+	delete(p.ByID, id)
 }
 
 // Mutate gives f exclusive access to the file map (external changes to the files while the torrent is stopped).
